@@ -1890,9 +1890,11 @@ where
                 {
                     Ok(_) => (),
                     Err(err) => match err {
+                        // The server refused our Parse. That can pass (a failed transaction
+                        // block refuses everything): the statement stays the client's, the
+                        // Bind that follows gets the server's error.
                         Error::PreparedStatementError => {
-                            debug!("Removed {} from client cache", client_name);
-                            self.prepared_statements.remove(&client_name);
+                            debug!("Could not prepare {} on the server", client_name);
                         }
 
                         _ => {
